@@ -15,6 +15,7 @@ from hypergraph.viz._common import (
     build_param_to_consumer_map,
     is_descendant_of,
     is_node_visible,
+    nearest_visible_ancestor,
 )
 from hypergraph.viz.renderer.nodes import (
     build_input_groups,
@@ -171,6 +172,8 @@ def add_merged_output_edges(
                     internal_source = find_internal_producer_for_output(source, value_name, flat_graph, expansion_state)
                     if internal_source:
                         actual_source = internal_source
+                # Producer inside a collapsed inner container: draw from that container
+                actual_source = nearest_visible_ancestor(actual_source, flat_graph, expansion_state)
 
             actual_targets = [target]
             target_attrs = flat_graph.nodes.get(target, {})
@@ -300,7 +303,8 @@ def add_separate_output_edges(
                                     internal_value = out
                                     break
                             data_value = internal_value
-                    data_source = actual_producer
+                    # Producer inside a collapsed inner container: use that container's DATA node
+                    data_source = nearest_visible_ancestor(actual_producer, flat_graph, expansion_state)
                     if not is_data_node_visible(data_source, data_value, flat_graph, expansion_state):
                         continue
                     data_node_id = f"data_{data_source}_{data_value}"
